@@ -216,6 +216,12 @@ GEcmultGen(d, s) == len < EcLen /\ GSet(d, Scalars[s])
 \* behaviour continues under (the harness drops the behaviour when its concrete k makes it false)
 GLift(d, a, odd, sg) == /\ ~FmIsZero(gr[a].f)
                         /\ gr' = [gr EXCEPT ![d] = [f |-> FmScale(sg, gr[a].f), rep |-> "aff"]]
+\* Operands are VALUES: a call may write only its destination.  After every step every register other than the
+\* destination, and every scalar / affine operand object handed to the call, must still denote what it denoted
+\* before; for the operations below the driver then REUSES the very same operand objects (the scalar objects of
+\* ECmult / ECmultGen, the affine operand of AddXY, the second register of Add) for a second call on a copy of the
+\* input register, whose result must again be the predicted point.
+ReuseOps == {"Add", "AddXY", "Double", "Neg", "ECmult", "ECmultGen"}
 \* XY.SetXYZ + GetPublicKey, XY.Neg, IsValid, DecompressPoint on the register: observers
 GObserve(a) == UNCHANGED gr
 
